@@ -222,6 +222,140 @@ def attachment(run, repo):
     return n
 
 
+# (phase, form of misc_models, add_gas_P_adj or None = not given) -> instances run through every constructor
+CTOR_CASES = (('g', 'None', None), ('G', '[cov]', None), ('gas', '[adj,cov]', None), ('g', 'None', True),
+              ('g', 'None', False), ('G', '[cov]', False), ('S', '[cov]', None), (None, 'None', None))
+
+
+def constructors(run, repo, thorough):
+    """the same count as `attachment`, on the species returned by every public way of building one: the constructors
+    of Nasa, Nasa9 and Shomate and their from_data / from_model (model given as an object and as a class).  The
+    least-squares library calls are uninterpreted (pmv/fitmodel.py), the grid of temperatures and the source model's
+    answers are data vectors of unknown length."""
+    from .. import fitmodel
+    n = 0
+    gci = repo.cls(GPA)
+
+    def fallback(atom):
+        if atom.startswith('AT{'):
+            return 5
+        if atom.startswith('MEAN{'):
+            return 1
+        return None
+
+    def source_model(I):
+        m = Obj('model')
+
+        def mk(mname):
+            def h(I_, obj, args, kwargs):
+                T = kwargs.get('T', args[0] if args else None)
+                if isinstance(T, Elem):
+                    return fitmodel.data_vector(I_, 'cp', 'generic')
+                return I_.D.sym('model.%s(%r)' % (mname, T))
+            return h
+        for q in ('get_CpoR', 'get_HoRT', 'get_SoR'):
+            m.opaque_methods[q] = mk(q)
+        m.attrs.update({'name': 'sp', 'elements': None})
+        m.missing = {'T_low', 'T_high'}
+        return m
+
+    for kind, qual in (('Nasa', NASA + '.Nasa'), ('Nasa9', NASA + '.Nasa9'), ('Shomate', SHO + '.Shomate')):
+        ci = repo.cls(qual)
+        for route in ('__init__', 'from_data', 'from_model', 'from_model[class]'):
+            mname = route.split('[')[0]
+            owner, fn = repo.find_method(ci, mname)
+            run.fn(owner.qual + '.' + mname)
+            con = '%s.%s' % (kind, mname)
+            for phase, form, add in (CTOR_CASES if thorough or route == '__init__' else CTOR_CASES[1:6]):
+                I = Interp(repo, order=RankOrder({'len<vec>': 1000, 'cp': 1, 'Tm': 3, 'T_ref': 2, 'T_low': 1,
+                                                  'T_high': 9}, const_ranks=True, fallback=fallback, witness=True))
+                fitmodel.install(I)
+                D = I.D
+                fr = Frame(I, repo.module('pmutt'), {}, None, None)
+                # the grid a constructor lays between T_low and T_high: a data vector like the one handed to from_data
+                I.native['numpy.linspace'] = lambda I_, fr_, a_, k_, n_: fitmodel.data_vector(I_, 'Tdata')
+                base_cat = I.native['numpy.concatenate']
+
+                def cat(I_, fr_, a_, k_, n_, base_cat=base_cat):
+                    # grids laid end to end are one grid
+                    seq = a_[0] if a_ else None
+                    if isinstance(seq, ListV) and seq.items and \
+                            all(isinstance(v_, fitmodel.DataVec) and same(v_.r, I_.D.sym('Tdata')) for v_ in seq.items):
+                        return fitmodel.data_vector(I_, 'Tdata')
+                    return base_cat(I_, fr_, a_, k_, n_)
+                I.native['numpy.concatenate'] = cat
+                opts = {'phase': phase, 'misc_models': misc_of(I, repo, fr, form)}
+                if add is not None:
+                    opts['add_gas_P_adj'] = add
+                empty = ListV([])
+                empty.is_array = True
+                if route == '__init__':
+                    if kind == 'Nasa':
+                        kw = {'T_low': D.sym('T_low'), 'T_mid': D.sym('Tm'), 'T_high': D.sym('T_high'),
+                              'a_low': coeff_vector(I, 'lo', 7), 'a_high': coeff_vector(I, 'hi', 7)}
+                    elif kind == 'Nasa9':
+                        seg = fr.apply(repo.cls(NASA + '.SingleNasa9'), [],
+                                       {'T_low': D.sym('T_low'), 'T_high': D.sym('T_high'),
+                                        'a': coeff_vector(I, 's', 9)}, None)
+                        kw = {'nasas': ListV([seg])}
+                    else:
+                        kw = {'T_low': D.sym('T_low'), 'T_high': D.sym('T_high'), 'a': coeff_vector(I, 'a', 8),
+                              'units': 'J/mol/K'}
+                elif route == 'from_data':
+                    kw = {'T': fitmodel.data_vector(I, 'Tdata'), 'CpoR': fitmodel.data_vector(I, 'cp', 'generic'),
+                          'T_ref': D.sym('T_ref'), 'HoRT_ref': D.sym('HoRT_ref'), 'SoR_ref': D.sym('SoR_ref')}
+                    if kind == 'Nasa':
+                        kw['T_mid'] = D.sym('Tm')
+                    elif kind == 'Nasa9':
+                        kw['T_mid'] = empty             # one interval
+                else:
+                    kw = {'T_low': D.sym('T_low'), 'T_high': D.sym('T_high')}
+                    if route == 'from_model':
+                        kw['model'] = source_model(I)
+                    else:
+                        # documented: "model : Model object or class", the keywords initialise it
+                        mci = repo.cls('pmutt.statmech.StatMech')
+                        I.opaque_classes[mci.qual] = lambda I_, fr_, a_, k_: source_model(I_)
+                        kw['model'] = mci
+                        kw['trans_model'] = Obj('trans')
+                    if kind == 'Nasa':
+                        kw['T_mid'] = D.sym('Tm')
+                    elif kind == 'Nasa9':
+                        kw.update({'T_mid': empty, 'fit_T_mid': False})
+                kw.update(opts, name='sp')
+                key = 'phase=%r misc=%s add_gas_P_adj=%s' % (phase, form, 'not given' if add is None else add)
+                try:
+                    if route == '__init__':
+                        o = fr.apply(ci, [], kw, None)
+                    else:
+                        o = I.call_function(owner.module, fn, [], kw, self_obj=ci, owner=owner,
+                                            name=owner.qual + '.' + mname)
+                except _RaisedExc as e:
+                    o = e.raised
+                n += 1
+                gas = phase is not None and phase.lower() in ('g', 'gas')
+                okey = '%s species, add_gas_P_adj=%s%s' % ('gas' if gas else 'non-gas', True if add is None else add,
+                                                          ', model given as a class' if '[' in route else '')
+                if not isinstance(o, Obj):
+                    run.fail('PATH.attach', con, okey, '[%s] %s does not build a species: %s' % (key, route, show(o, 120)),
+                             owner.module, fn)
+                    continue
+                mm = o.attrs.get('misc_models')
+                items = mm.items if isinstance(mm, ListV) else []
+                n_adj = len([m_ for m_ in items if isinstance(m_, Obj) and m_.ci is gci])
+                others = [m_ for m_ in items if not (isinstance(m_, Obj) and m_.ci is gci)]
+                want = (1 if add is not False else form.count('adj')) if gas else form.count('adj')
+                run.check(n_adj == want and len(others) == form.count('cov') and
+                          all(isinstance(m_, Obj) for m_ in others), 'PATH.attach', con, okey,
+                          '[%s] the species returned by %s carries %d pressure adjustment(s) and %d other attached '
+                          'model(s), expected %d and %d: a gas-phase species carries exactly one adjustment however it was '
+                          'constructed unless the user disables it, other phases none, and the models handed over are kept'
+                          % (key, route, n_adj, len(others), want, form.count('cov')), owner.module, fn,
+                          sample='%s(%s) -> %d adjustment(s)' % (con, key, n_adj) if form == '[cov]' and add is None
+                          and gas else None)
+    return n
+
+
 def real_models(run, repo):
     """real GasPressureAdj and PiecewiseCovEffect through the real aggregation over misc_models"""
     n = 0
@@ -296,13 +430,48 @@ def reload_path(run, repo):
     from .c11 import builders, Problem
     n = 0
     order = RankOrder({'w0': 5, 'w1': 7, 'b1': 3}, const_ranks=True)
+    gci = repo.cls(GPA)
+    cci = repo.cls('pmutt.mixture.cov.PiecewiseCovEffect')
+
+    def adj_ahead(I, kind):
+        """gas species whose pressure adjustment stands AHEAD of a coverage effect (what a user gets who appends a
+        coverage effect to the list of a gas species), built by the public constructor"""
+        D = I.D
+        fr = Frame(I, repo.module('pmutt'), {}, None, None)
+        misc = misc_of(I, repo, fr, '[adj,cov]', real_cov=True)
+
+        def vec(name, k):
+            v = coeff_vector(I, name, k)
+            v.is_array = True
+            return v
+        common_ = {'name': 'sp', 'phase': 'G', 'misc_models': misc, 'elements': DictV({'H': D.sym('nH')})}
+        if kind == 'Nasa':
+            kw = {'T_low': D.sym('Tl'), 'T_mid': D.sym('Tm'), 'T_high': D.sym('Th'), 'a_low': vec('lo', 7),
+                  'a_high': vec('hi', 7)}
+        elif kind == 'Nasa9':
+            seg = fr.apply(repo.cls(NASA + '.SingleNasa9'), [], {'T_low': D.sym('Tl'), 'T_high': D.sym('Th'),
+                                                                  'a': vec('s', 9)}, None)
+            kw = {'nasas': ListV([seg])}
+        else:
+            kw = {'T_low': D.sym('Tl'), 'T_high': D.sym('Th'), 'a': vec('a', 8), 'units': 'J/mol/K'}
+        return fr.apply(repo.cls((SHO if kind == 'Shomate' else NASA) + '.' + kind), [], dict(kw, **common_), None)
+
     for label in ('Nasa[surface+cov]', 'Nasa[gas]', 'Nasa[gas, adjustment disabled]', 'Nasa9', 'Nasa9[gas+cov]', 'Shomate', 'Shomate[surface+cov]',
-                  'StatMech[references+misc]'):
+                  'StatMech[references+misc]', 'Nasa[gas, adjustment ahead of cov]',
+                  'Nasa9[gas, adjustment ahead of cov]', 'Shomate[gas, adjustment ahead of cov]'):
         I = Interp(repo, order=order)
-        bs = dict(builders(I, repo))
-        if label not in bs:
-            raise AnchorError('builder %s missing' % label)
-        obj = bs[label]()
+        absolute = None
+        if 'ahead of cov' in label:
+            try:
+                obj = adj_ahead(I, label.split('[')[0])
+            except _RaisedExc as e:
+                raise Problem('constructor of %s raises %s' % (label, e.raised.exc))
+            absolute = [gci, cci]        # what the species must carry before and after every cycle
+        else:
+            bs = dict(builders(I, repo))
+            if label not in bs:
+                raise AnchorError('builder %s missing' % label)
+            obj = bs[label]()
         ci = obj.ci
         owner, fn = repo.find_method(ci, 'from_dict')
         run.fn(owner.qual + '.from_dict')
@@ -323,6 +492,15 @@ def reload_path(run, repo):
             items = mm1.items if isinstance(mm1, ListV) else []
             ok = len(items) == n0 and all(isinstance(m_, Obj) for m_ in items) and \
                 all(a.ci is b.ci for a, b in zip(mm0.items if n0 else [], items))
+            if absolute is not None:
+                got_ = [m_.ci if isinstance(m_, Obj) else None for m_ in items]
+                run.check(sorted(c_.name for c_ in got_ if c_ is not None) == sorted(c_.name for c_ in absolute)
+                          and len(got_) == len(absolute), 'TABLE.reload', ci.name + '.from_dict',
+                          'one adjustment, ahead of a coverage effect',
+                          'a gas species built with misc_models=[GasPressureAdj, PiecewiseCovEffect] carries %s after %d '
+                          'to_dict/from_dict cycle(s), expected exactly one pressure adjustment and the coverage effect'
+                          % (show(mm1, 120), cycle), owner.module, fn)
+                n += 1
             if 'disabled' in label:
                 key_ = 'disabled adjustment stays disabled'
                 why_ = ('a gas species built with add_gas_P_adj=False carries %d attached model(s) after %d '
@@ -348,26 +526,52 @@ def check(run, repo):
         'the bare polynomial plus the sum over all attached models evaluated at that element\'s temperature and the '
         'same conditions; (b) with a real GasPressureAdj and a real PiecewiseCovEffect through the real '
         'aggregation in both orders: S = poly - ln P, H = poly + coverage energy/RT, Cp unchanged, G = H - S. '
-        'EmpiricalBase.__init__ is interpreted for 9 phase spellings x 7 forms of misc_models (none, empty, other '
-        'models, adjustment present as object or as its serialised dictionary) x add_gas_P_adj on/off and the number '
-        'of pressure adjustments in the result is counted. Direct to_dict/from_dict cycles (twice) must keep the '
-        'attached models as objects.')
+        'The getters with units (get_Cp/get_H/get_S/get_G, unit kJ/mol[/K]) are held to R[*T] times the same sum, '
+        'scalar and array T, with two attached models. '
+        'EmpiricalBase.__init__ is interpreted for 9 phase spellings x 12 forms of misc_models (none, empty, other '
+        'models, adjustment present as object or as its serialised dictionary: alone, behind, ahead of and between '
+        'other models) x add_gas_P_adj on/off and the number '
+        'of pressure adjustments in the result is counted. The same count is taken on the species returned by the '
+        'constructors of Nasa, Nasa9 and Shomate and by their from_data / from_model (source model given as an object '
+        'and as a class; least-squares calls uninterpreted, temperature grids and model answers are data vectors) for '
+        'gas / non-gas phases, with and without models handed over, add_gas_P_adj not given / True / False. '
+        'Direct to_dict/from_dict cycles (twice) must keep the '
+        'attached models as objects; a gas species built with [GasPressureAdj, PiecewiseCovEffect] must carry exactly '
+        'these two after every cycle.')
     run.assumptions = ['attached models are arbitrary objects with the getter interface (uninterpreted in (a))']
     run.undecided = ['coverage model numerics (C17)', 'copying via copy.deepcopy']
     thorough = run.tier == 'thorough'
     n = summation(run, repo, 5 if thorough else 3)
-    run.floor('summation instances', n, 48)
+    run.floor('summation instances', n, 180)
     n = real_models(run, repo)
     run.floor('real-model instances', n, 24)
     n = attachment(run, repo)
-    run.floor('attachment cases', n, 90)
+    run.floor('attachment cases', n, 150)
+    n = constructors(run, repo, thorough)
+    run.floor('species built through the public constructors', n, 69)
     n = reload_path(run, repo)
-    run.floor('reload instances', n, 6)
+    run.floor('reload instances', n, 20)
 
 
 E_ = 'pmutt/empirical/__init__.py'
 N_ = 'pmutt/empirical/nasa.py'
 M_ = 'pmutt/mixture/__init__.py'
+S_ = 'pmutt/empirical/shomate.py'
+_SCAN = ("                    for i, model in enumerate(misc_models):\n"
+         "                        if model == dict_entry:\n"
+         "                            misc_models[i] = GasPressureAdj()\n"
+         "                            break\n"
+         "                        elif isinstance(model, GasPressureAdj):\n"
+         "                            break\n"
+         "                    else:\n"
+         "                        misc_models.append(GasPressureAdj())")
+_SCAN_LAST = ("                    has_P_adj = False\n"
+              "                    for i, model in enumerate(misc_models):\n"
+              "                        if model == dict_entry:\n"
+              "                            misc_models[i] = GasPressureAdj()\n"
+              "                        has_P_adj = isinstance(misc_models[i], GasPressureAdj)\n"
+              "                    if not has_P_adj:\n"
+              "                        misc_models.append(GasPressureAdj())")
 MUTANTS = [
     {'name': 'second adjustment appended when one is present', 'expect': ('PATH.attach', ''),
      'edits': [(E_, '                        elif isinstance(model, GasPressureAdj):\n                            break', '                        elif isinstance(model, GasPressureAdj):\n                            pass')]},
@@ -378,5 +582,34 @@ MUTANTS = [
                 "                                               default_value=0.,\n                                               T=T[0],\n                                               **kwargs))\n        else:\n            a = self.get_a(T=T)\n            HoRT")]},
     {'name': 'mix quantity skips the first model', 'expect': ('REF.corrections', ''),
      'edits': [(M_, '    for i, mix_model in enumerate(misc_models):\n        if mix_model is None:', '    for i, mix_model in enumerate(misc_models):\n        if mix_model is None or i == 0:')]},
+    # --- instances added after the white-box review
+    {'name': 'Nasa.get_G evaluates the dimensionless value without the conditions',
+     'expect': ('BRANCH-TWIN', 'Nasa.get_G'),
+     'edits': [(N_, "                             S_elements=S_elements,\n                             **kwargs) * T * R_adj",
+                "                             S_elements=S_elements) * T * R_adj", 0, 2)]},
+    {'name': 'Nasa9.get_S evaluates the dimensionless value without the conditions',
+     'expect': ('BRANCH-TWIN', 'Nasa9.get_S'),
+     'edits': [(N_, "                            S_elements=S_elements,\n                            **kwargs) * R_adj",
+                "                            S_elements=S_elements) * R_adj", 1, 2)]},
+    {'name': 'only the last attached model decides whether an adjustment is present (constructor forms)',
+     'expect': ('PATH.attach', 'EmpiricalBase.__init__'), 'edits': [(E_, _SCAN, _SCAN_LAST)]},
+    {'name': 'only the last attached model decides whether an adjustment is present (reload of [adj, cov])',
+     'expect': ('TABLE.reload', 'from_dict'), 'edits': [(E_, _SCAN, _SCAN_LAST)]},
+    {'name': 'Shomate.from_model keeps the keywords for the model class only', 'expect': ('PATH.attach', 'Shomate.from_model'),
+     'edits': [(S_, "            model = model(name=name, elements=elements, **kwargs)\n",
+                "            model = model(name=name, elements=elements, **kwargs)\n            kwargs = {}\n")]},
+    {'name': 'Nasa9.from_data forwards only the model to the constructor', 'expect': ('PATH.attach', 'Nasa9.from_data'),
+     'edits': [(N_, "        return cls(name=name, nasas=nasas, elements=elements, **kwargs)",
+                "        return cls(name=name, nasas=nasas, elements=elements, model=kwargs.get('model'))")]},
+    {'name': 'Nasa9.__init__ swallows add_gas_P_adj', 'expect': ('PATH.attach', 'Nasa9.__init__'),
+     'edits': [(N_, "    def __init__(self, name, nasas, n_sites=1, **kwargs):\n        super().__init__(name=name, **kwargs)",
+                "    def __init__(self, name, nasas, n_sites=1, phase=None, misc_models=None,\n"
+                "                 add_gas_P_adj=True, **kwargs):\n"
+                "        super().__init__(name=name, phase=phase, misc_models=misc_models,\n"
+                "                         **kwargs)")]},
+    {'name': 'Nasa.__init__ swallows add_gas_P_adj', 'expect': ('PATH.attach', 'Nasa.__init__'),
+     'edits': [(N_, "                 n_sites=None,\n                 **kwargs):\n        super().__init__(name=name, **kwargs)",
+                "                 n_sites=None,\n                 add_gas_P_adj=True,\n                 **kwargs):\n"
+                "        super().__init__(name=name, **kwargs)")]},
 ]
 EQUIV = []
